@@ -215,15 +215,18 @@ Cx: cbAlive := FALSE; goto C0;
 }
 
 fair process (snd \in Senders)
-variables n = 1;
+variables n = 1, rf = 0;
 {
 S0: while (n <= NInd) {
       either { await srv[TargetOf(self)] = "up";
                inH := inH \cup {self};
                Emit(<<ReqEv("req", self, n, "")>>) }
-      or     { await srv[TargetOf(self)] # "up";
+      or     { \* connection refused: once while the program runs (then the
+               \* sender waits for a listener), and at the end (gives up)
+               await srv[TargetOf(self)] # "up" /\ (rf = 0 \/ MainDone);
                Emit(<<ReqEv("req", self, n, ""), ReqEv("resp", self, n, "refused")>>);
-               n := n + 1; goto S0 };
+               if (MainDone) { n := NInd + 1 } else { rf := 1 };
+               goto S0 };
 H1:   if (~qref) {                                \* "queue not set up"
 H1r:    Emit(<<ReqEv("resp", self, n, "ok")>>); goto H3;
       };
@@ -271,11 +274,11 @@ StartFailHolds == obs.bad \cap StartFailClauses = {}
 OtherHolds == obs.bad \ StartFailClauses = {}
 MainDone == pc["main"] = "Done"
 
-VARIABLES immediate, item, ci, n
+VARIABLES immediate, item, ci, n, rf
 
 vars == << pc, q, qref, cbSet, stopEv, cbAlive, srvSet, srv, thr, leaked, inH, 
-           cbs, obs, ops, op, env, carg, exc, stack, immediate, item, ci, n
-        >>
+           cbs, obs, ops, op, env, carg, exc, stack, immediate, item, ci, n, 
+           rf >>
 
 ProcSet == {"main"} \cup {"cb"} \cup (Senders)
 
@@ -304,6 +307,7 @@ Init == (* Global variables *)
         /\ ci = 1
         (* Process snd *)
         /\ n = [self \in Senders |-> 1]
+        /\ rf = [self \in Senders |-> 0]
         /\ stack = [self \in ProcSet |-> << >>]
         /\ pc = [self \in ProcSet |-> CASE self = "main" -> "MI"
                                         [] self = "cb" -> "C0"
@@ -317,14 +321,14 @@ SD0(self) == /\ pc[self] = "SD0"
                    ELSE /\ pc' = [pc EXCEPT ![self] = "SD4"]
              /\ UNCHANGED << q, qref, cbSet, stopEv, cbAlive, srvSet, srv, thr, 
                              leaked, inH, cbs, obs, ops, op, env, carg, exc, 
-                             stack, immediate, item, ci, n >>
+                             stack, immediate, item, ci, n, rf >>
 
 SD3(self) == /\ pc[self] = "SD3"
              /\ qref' = FALSE
              /\ pc' = [pc EXCEPT ![self] = "SD4"]
              /\ UNCHANGED << q, cbSet, stopEv, cbAlive, srvSet, srv, thr, 
                              leaked, inH, cbs, obs, ops, op, env, carg, exc, 
-                             stack, immediate, item, ci, n >>
+                             stack, immediate, item, ci, n, rf >>
 
 SD1(self) == /\ pc[self] = "SD1"
              /\ IF q # <<>>
@@ -332,14 +336,14 @@ SD1(self) == /\ pc[self] = "SD1"
                    ELSE /\ pc' = [pc EXCEPT ![self] = "SD3"]
              /\ UNCHANGED << q, qref, cbSet, stopEv, cbAlive, srvSet, srv, thr, 
                              leaked, inH, cbs, obs, ops, op, env, carg, exc, 
-                             stack, immediate, item, ci, n >>
+                             stack, immediate, item, ci, n, rf >>
 
 SD1s(self) == /\ pc[self] = "SD1s"
               /\ TRUE
               /\ pc' = [pc EXCEPT ![self] = "SD1"]
               /\ UNCHANGED << q, qref, cbSet, stopEv, cbAlive, srvSet, srv, 
                               thr, leaked, inH, cbs, obs, ops, op, env, carg, 
-                              exc, stack, immediate, item, ci, n >>
+                              exc, stack, immediate, item, ci, n, rf >>
 
 SD2(self) == /\ pc[self] = "SD2"
              /\ IF q # <<>>
@@ -347,7 +351,7 @@ SD2(self) == /\ pc[self] = "SD2"
                    ELSE /\ pc' = [pc EXCEPT ![self] = "SD3"]
              /\ UNCHANGED << q, qref, cbSet, stopEv, cbAlive, srvSet, srv, thr, 
                              leaked, inH, cbs, obs, ops, op, env, carg, exc, 
-                             stack, immediate, item, ci, n >>
+                             stack, immediate, item, ci, n, rf >>
 
 SD2g(self) == /\ pc[self] = "SD2g"
               /\ IF q = <<>>
@@ -364,14 +368,14 @@ SD2g(self) == /\ pc[self] = "SD2g"
                          /\ UNCHANGED << exc, stack, immediate >>
               /\ UNCHANGED << qref, cbSet, stopEv, cbAlive, srvSet, srv, thr, 
                               leaked, inH, cbs, obs, ops, op, env, carg, item, 
-                              ci, n >>
+                              ci, n, rf >>
 
 SD2t(self) == /\ pc[self] = "SD2t"
               /\ TRUE
               /\ pc' = [pc EXCEPT ![self] = "SD2"]
               /\ UNCHANGED << q, qref, cbSet, stopEv, cbAlive, srvSet, srv, 
                               thr, leaked, inH, cbs, obs, ops, op, env, carg, 
-                              exc, stack, immediate, item, ci, n >>
+                              exc, stack, immediate, item, ci, n, rf >>
 
 SD4(self) == /\ pc[self] = "SD4"
              /\ IF cbSet
@@ -381,7 +385,7 @@ SD4(self) == /\ pc[self] = "SD4"
                         /\ UNCHANGED stopEv
              /\ UNCHANGED << q, qref, cbSet, cbAlive, srvSet, srv, thr, leaked, 
                              inH, cbs, obs, ops, op, env, carg, exc, stack, 
-                             immediate, item, ci, n >>
+                             immediate, item, ci, n, rf >>
 
 SD5(self) == /\ pc[self] = "SD5"
              /\ ~cbAlive
@@ -389,7 +393,7 @@ SD5(self) == /\ pc[self] = "SD5"
              /\ pc' = [pc EXCEPT ![self] = "SDr"]
              /\ UNCHANGED << q, qref, stopEv, cbAlive, srvSet, srv, thr, 
                              leaked, inH, cbs, obs, ops, op, env, carg, exc, 
-                             stack, immediate, item, ci, n >>
+                             stack, immediate, item, ci, n, rf >>
 
 SDr(self) == /\ pc[self] = "SDr"
              /\ pc' = [pc EXCEPT ![self] = Head(stack[self]).pc]
@@ -397,7 +401,7 @@ SDr(self) == /\ pc[self] = "SDr"
              /\ stack' = [stack EXCEPT ![self] = Tail(stack[self])]
              /\ UNCHANGED << q, qref, cbSet, stopEv, cbAlive, srvSet, srv, thr, 
                              leaked, inH, cbs, obs, ops, op, env, carg, exc, 
-                             item, ci, n >>
+                             item, ci, n, rf >>
 
 StopDelivery(self) == SD0(self) \/ SD3(self) \/ SD1(self) \/ SD1s(self)
                          \/ SD2(self) \/ SD2g(self) \/ SD2t(self)
@@ -417,7 +421,7 @@ SL1(self) == /\ pc[self] = "SL1"
                         /\ srv' = srv
              /\ UNCHANGED << q, qref, cbSet, stopEv, cbAlive, srvSet, thr, 
                              leaked, inH, cbs, obs, ops, op, env, carg, 
-                             immediate, item, ci, n >>
+                             immediate, item, ci, n, rf >>
 
 SL1c(self) == /\ pc[self] = "SL1c"
               /\ \A s \in inH : TargetOf(s) # "http"
@@ -427,7 +431,7 @@ SL1c(self) == /\ pc[self] = "SL1c"
               /\ pc' = [pc EXCEPT ![self] = "SL2"]
               /\ UNCHANGED << q, qref, cbSet, stopEv, cbAlive, leaked, inH, 
                               cbs, obs, ops, op, env, carg, exc, stack, 
-                              immediate, item, ci, n >>
+                              immediate, item, ci, n, rf >>
 
 SL2(self) == /\ pc[self] = "SL2"
              /\ IF srvSet["https"]
@@ -443,7 +447,7 @@ SL2(self) == /\ pc[self] = "SL2"
                         /\ srv' = srv
              /\ UNCHANGED << q, qref, cbSet, stopEv, cbAlive, srvSet, thr, 
                              leaked, inH, cbs, obs, ops, op, env, carg, 
-                             immediate, item, ci, n >>
+                             immediate, item, ci, n, rf >>
 
 SL2c(self) == /\ pc[self] = "SL2c"
               /\ \A s \in inH : TargetOf(s) # "https"
@@ -453,14 +457,14 @@ SL2c(self) == /\ pc[self] = "SL2c"
               /\ pc' = [pc EXCEPT ![self] = "SLr"]
               /\ UNCHANGED << q, qref, cbSet, stopEv, cbAlive, leaked, inH, 
                               cbs, obs, ops, op, env, carg, exc, stack, 
-                              immediate, item, ci, n >>
+                              immediate, item, ci, n, rf >>
 
 SLr(self) == /\ pc[self] = "SLr"
              /\ pc' = [pc EXCEPT ![self] = Head(stack[self]).pc]
              /\ stack' = [stack EXCEPT ![self] = Tail(stack[self])]
              /\ UNCHANGED << q, qref, cbSet, stopEv, cbAlive, srvSet, srv, thr, 
                              leaked, inH, cbs, obs, ops, op, env, carg, exc, 
-                             immediate, item, ci, n >>
+                             immediate, item, ci, n, rf >>
 
 StopListeners(self) == SL1(self) \/ SL1c(self) \/ SL2(self) \/ SL2c(self)
                           \/ SLr(self)
@@ -474,7 +478,7 @@ ST0(self) == /\ pc[self] = "ST0"
                         /\ UNCHANGED << exc, stack >>
              /\ UNCHANGED << q, qref, cbSet, stopEv, cbAlive, srvSet, srv, thr, 
                              leaked, inH, cbs, obs, ops, op, env, carg, 
-                             immediate, item, ci, n >>
+                             immediate, item, ci, n, rf >>
 
 ST1(self) == /\ pc[self] = "ST1"
              /\ q' = <<>>
@@ -482,7 +486,7 @@ ST1(self) == /\ pc[self] = "ST1"
              /\ pc' = [pc EXCEPT ![self] = "ST1b"]
              /\ UNCHANGED << cbSet, stopEv, cbAlive, srvSet, srv, thr, leaked, 
                              inH, cbs, obs, ops, op, env, carg, exc, stack, 
-                             immediate, item, ci, n >>
+                             immediate, item, ci, n, rf >>
 
 ST1b(self) == /\ pc[self] = "ST1b"
               /\ stopEv' = FALSE
@@ -491,7 +495,7 @@ ST1b(self) == /\ pc[self] = "ST1b"
               /\ pc' = [pc EXCEPT ![self] = "ST2"]
               /\ UNCHANGED << q, qref, srvSet, srv, thr, leaked, inH, cbs, obs, 
                               ops, op, env, carg, exc, stack, immediate, item, 
-                              ci, n >>
+                              ci, n, rf >>
 
 ST2(self) == /\ pc[self] = "ST2"
              /\ IF "http" \in Cfg /\ ~srvSet["http"]
@@ -513,14 +517,14 @@ ST2(self) == /\ pc[self] = "ST2"
                         /\ UNCHANGED << srv, stack, immediate >>
              /\ UNCHANGED << q, qref, cbSet, stopEv, cbAlive, srvSet, thr, 
                              leaked, inH, cbs, obs, ops, op, env, carg, exc, 
-                             item, ci, n >>
+                             item, ci, n, rf >>
 
 ST2f(self) == /\ pc[self] = "ST2f"
               /\ exc' = "ListenerPortError"
               /\ pc' = [pc EXCEPT ![self] = "STX"]
               /\ UNCHANGED << q, qref, cbSet, stopEv, cbAlive, srvSet, srv, 
                               thr, leaked, inH, cbs, obs, ops, op, env, carg, 
-                              stack, immediate, item, ci, n >>
+                              stack, immediate, item, ci, n, rf >>
 
 ST2s(self) == /\ pc[self] = "ST2s"
               /\ srvSet' = [srvSet EXCEPT !["http"] = TRUE]
@@ -529,7 +533,7 @@ ST2s(self) == /\ pc[self] = "ST2s"
               /\ pc' = [pc EXCEPT ![self] = "ST3"]
               /\ UNCHANGED << q, qref, cbSet, stopEv, cbAlive, leaked, inH, 
                               cbs, obs, ops, op, env, carg, exc, stack, 
-                              immediate, item, ci, n >>
+                              immediate, item, ci, n, rf >>
 
 ST3(self) == /\ pc[self] = "ST3"
              /\ IF "https" \in Cfg /\ ~srvSet["https"]
@@ -551,14 +555,14 @@ ST3(self) == /\ pc[self] = "ST3"
                         /\ UNCHANGED << srv, stack, immediate >>
              /\ UNCHANGED << q, qref, cbSet, stopEv, cbAlive, srvSet, thr, 
                              leaked, inH, cbs, obs, ops, op, env, carg, exc, 
-                             item, ci, n >>
+                             item, ci, n, rf >>
 
 ST3f(self) == /\ pc[self] = "ST3f"
               /\ exc' = "ListenerPortError"
               /\ pc' = [pc EXCEPT ![self] = "STX"]
               /\ UNCHANGED << q, qref, cbSet, stopEv, cbAlive, srvSet, srv, 
                               thr, leaked, inH, cbs, obs, ops, op, env, carg, 
-                              stack, immediate, item, ci, n >>
+                              stack, immediate, item, ci, n, rf >>
 
 ST3c(self) == /\ pc[self] = "ST3c"
               /\ IF env.bad_cert
@@ -577,14 +581,14 @@ ST3c(self) == /\ pc[self] = "ST3c"
                          /\ UNCHANGED << leaked, exc >>
               /\ UNCHANGED << q, qref, cbSet, stopEv, cbAlive, inH, cbs, obs, 
                               ops, op, env, carg, stack, immediate, item, ci, 
-                              n >>
+                              n, rf >>
 
 ST4(self) == /\ pc[self] = "ST4"
              /\ pc' = [pc EXCEPT ![self] = Head(stack[self]).pc]
              /\ stack' = [stack EXCEPT ![self] = Tail(stack[self])]
              /\ UNCHANGED << q, qref, cbSet, stopEv, cbAlive, srvSet, srv, thr, 
                              leaked, inH, cbs, obs, ops, op, env, carg, exc, 
-                             immediate, item, ci, n >>
+                             immediate, item, ci, n, rf >>
 
 STX(self) == /\ pc[self] = "STX"
              /\ IF FailCleanup = "full"
@@ -596,7 +600,7 @@ STX(self) == /\ pc[self] = "STX"
                         /\ stack' = stack
              /\ UNCHANGED << q, qref, cbSet, stopEv, cbAlive, srvSet, srv, thr, 
                              leaked, inH, cbs, obs, ops, op, env, carg, exc, 
-                             immediate, item, ci, n >>
+                             immediate, item, ci, n, rf >>
 
 STX2(self) == /\ pc[self] = "STX2"
               /\ /\ immediate' = [immediate EXCEPT ![self] = TRUE]
@@ -607,14 +611,14 @@ STX2(self) == /\ pc[self] = "STX2"
               /\ pc' = [pc EXCEPT ![self] = "SD0"]
               /\ UNCHANGED << q, qref, cbSet, stopEv, cbAlive, srvSet, srv, 
                               thr, leaked, inH, cbs, obs, ops, op, env, carg, 
-                              exc, item, ci, n >>
+                              exc, item, ci, n, rf >>
 
 STX3(self) == /\ pc[self] = "STX3"
               /\ pc' = [pc EXCEPT ![self] = Head(stack[self]).pc]
               /\ stack' = [stack EXCEPT ![self] = Tail(stack[self])]
               /\ UNCHANGED << q, qref, cbSet, stopEv, cbAlive, srvSet, srv, 
                               thr, leaked, inH, cbs, obs, ops, op, env, carg, 
-                              exc, immediate, item, ci, n >>
+                              exc, immediate, item, ci, n, rf >>
 
 Start(self) == ST0(self) \/ ST1(self) \/ ST1b(self) \/ ST2(self)
                   \/ ST2f(self) \/ ST2s(self) \/ ST3(self) \/ ST3f(self)
@@ -626,7 +630,7 @@ MI == /\ pc["main"] = "MI"
       /\ pc' = [pc EXCEPT !["main"] = "ML"]
       /\ UNCHANGED << q, qref, cbSet, stopEv, cbAlive, srvSet, srv, thr, 
                       leaked, inH, cbs, ops, op, env, carg, exc, stack, 
-                      immediate, item, ci, n >>
+                      immediate, item, ci, n, rf >>
 
 ML == /\ pc["main"] = "ML"
       /\ IF ops <= MaxOps
@@ -643,7 +647,7 @@ ML == /\ pc["main"] = "ML"
                  /\ UNCHANGED << op, env, carg >>
       /\ UNCHANGED << q, qref, cbSet, stopEv, cbAlive, srvSet, srv, thr, 
                       leaked, inH, cbs, obs, ops, exc, stack, immediate, item, 
-                      ci, n >>
+                      ci, n, rf >>
 
 MB == /\ pc["main"] = "MB"
       /\ obs' = Run(obs, (<<Ev("begin")>>))
@@ -667,7 +671,7 @@ MB == /\ pc["main"] = "MB"
                             /\ stack' = stack
       /\ UNCHANGED << q, qref, cbSet, stopEv, cbAlive, srvSet, srv, thr, 
                       leaked, inH, ops, op, env, carg, exc, immediate, item, 
-                      ci, n >>
+                      ci, n, rf >>
 
 MB2 == /\ pc["main"] = "MB2"
        /\ IF op = "stop" /\ exc = ""
@@ -681,7 +685,7 @@ MB2 == /\ pc["main"] = "MB2"
                   /\ UNCHANGED << stack, immediate >>
        /\ UNCHANGED << q, qref, cbSet, stopEv, cbAlive, srvSet, srv, thr, 
                        leaked, inH, cbs, obs, ops, op, env, carg, exc, item, 
-                       ci, n >>
+                       ci, n, rf >>
 
 MR == /\ pc["main"] = "MR"
       /\ obs' = Run(obs, (<<Ev("ret")>>))
@@ -690,14 +694,14 @@ MR == /\ pc["main"] = "MR"
       /\ pc' = [pc EXCEPT !["main"] = "ML"]
       /\ UNCHANGED << q, qref, cbSet, stopEv, cbAlive, srvSet, srv, thr, 
                       leaked, inH, cbs, op, env, carg, stack, immediate, item, 
-                      ci, n >>
+                      ci, n, rf >>
 
 ME == /\ pc["main"] = "ME"
       /\ obs' = Run(obs, (<<Ev("end")>>))
       /\ pc' = [pc EXCEPT !["main"] = "Done"]
       /\ UNCHANGED << q, qref, cbSet, stopEv, cbAlive, srvSet, srv, thr, 
                       leaked, inH, cbs, ops, op, env, carg, exc, stack, 
-                      immediate, item, ci, n >>
+                      immediate, item, ci, n, rf >>
 
 main == MI \/ ML \/ MB \/ MB2 \/ MR \/ ME
 
@@ -706,7 +710,7 @@ C0 == /\ pc["cb"] = "C0"
       /\ pc' = [pc EXCEPT !["cb"] = "C1"]
       /\ UNCHANGED << q, qref, cbSet, stopEv, cbAlive, srvSet, srv, thr, 
                       leaked, inH, cbs, obs, ops, op, env, carg, exc, stack, 
-                      immediate, item, ci, n >>
+                      immediate, item, ci, n, rf >>
 
 C1 == /\ pc["cb"] = "C1"
       /\ \/ /\ q # <<>>
@@ -719,7 +723,7 @@ C1 == /\ pc["cb"] = "C1"
             /\ UNCHANGED <<q, item, ci>>
       /\ UNCHANGED << qref, cbSet, stopEv, cbAlive, srvSet, srv, thr, leaked, 
                       inH, cbs, obs, ops, op, env, carg, exc, stack, immediate, 
-                      n >>
+                      n, rf >>
 
 C1e == /\ pc["cb"] = "C1e"
        /\ IF stopEv
@@ -727,7 +731,7 @@ C1e == /\ pc["cb"] = "C1e"
              ELSE /\ pc' = [pc EXCEPT !["cb"] = "C1"]
        /\ UNCHANGED << q, qref, cbSet, stopEv, cbAlive, srvSet, srv, thr, 
                        leaked, inH, cbs, obs, ops, op, env, carg, exc, stack, 
-                       immediate, item, ci, n >>
+                       immediate, item, ci, n, rf >>
 
 C3 == /\ pc["cb"] = "C3"
       /\ IF ci <= Len(cbs)
@@ -738,20 +742,20 @@ C3 == /\ pc["cb"] = "C3"
                  /\ UNCHANGED << obs, ci >>
       /\ UNCHANGED << q, qref, cbSet, stopEv, cbAlive, srvSet, srv, thr, 
                       leaked, inH, cbs, ops, op, env, carg, exc, stack, 
-                      immediate, item, n >>
+                      immediate, item, n, rf >>
 
 C4 == /\ pc["cb"] = "C4"
       /\ pc' = [pc EXCEPT !["cb"] = "C1"]
       /\ UNCHANGED << q, qref, cbSet, stopEv, cbAlive, srvSet, srv, thr, 
                       leaked, inH, cbs, obs, ops, op, env, carg, exc, stack, 
-                      immediate, item, ci, n >>
+                      immediate, item, ci, n, rf >>
 
 Cx == /\ pc["cb"] = "Cx"
       /\ cbAlive' = FALSE
       /\ pc' = [pc EXCEPT !["cb"] = "C0"]
       /\ UNCHANGED << q, qref, cbSet, stopEv, srvSet, srv, thr, leaked, inH, 
                       cbs, obs, ops, op, env, carg, exc, stack, immediate, 
-                      item, ci, n >>
+                      item, ci, n, rf >>
 
 cb == C0 \/ C1 \/ C1e \/ C3 \/ C4 \/ Cx
 
@@ -761,14 +765,18 @@ S0(self) == /\ pc[self] = "S0"
                              /\ inH' = (inH \cup {self})
                              /\ obs' = Run(obs, (<<ReqEv("req", self, n[self], "")>>))
                              /\ pc' = [pc EXCEPT ![self] = "H1"]
-                             /\ n' = n
-                          \/ /\ srv[TargetOf(self)] # "up"
+                             /\ UNCHANGED <<n, rf>>
+                          \/ /\ srv[TargetOf(self)] # "up" /\ (rf[self] = 0 \/ MainDone)
                              /\ obs' = Run(obs, (<<ReqEv("req", self, n[self], ""), ReqEv("resp", self, n[self], "refused")>>))
-                             /\ n' = [n EXCEPT ![self] = n[self] + 1]
+                             /\ IF MainDone
+                                   THEN /\ n' = [n EXCEPT ![self] = NInd + 1]
+                                        /\ rf' = rf
+                                   ELSE /\ rf' = [rf EXCEPT ![self] = 1]
+                                        /\ n' = n
                              /\ pc' = [pc EXCEPT ![self] = "S0"]
                              /\ inH' = inH
                   ELSE /\ pc' = [pc EXCEPT ![self] = "Done"]
-                       /\ UNCHANGED << inH, obs, n >>
+                       /\ UNCHANGED << inH, obs, n, rf >>
             /\ UNCHANGED << q, qref, cbSet, stopEv, cbAlive, srvSet, srv, thr, 
                             leaked, cbs, ops, op, env, carg, exc, stack, 
                             immediate, item, ci >>
@@ -779,14 +787,14 @@ H1(self) == /\ pc[self] = "H1"
                   ELSE /\ pc' = [pc EXCEPT ![self] = "H2"]
             /\ UNCHANGED << q, qref, cbSet, stopEv, cbAlive, srvSet, srv, thr, 
                             leaked, inH, cbs, obs, ops, op, env, carg, exc, 
-                            stack, immediate, item, ci, n >>
+                            stack, immediate, item, ci, n, rf >>
 
 H1r(self) == /\ pc[self] = "H1r"
              /\ obs' = Run(obs, (<<ReqEv("resp", self, n[self], "ok")>>))
              /\ pc' = [pc EXCEPT ![self] = "H3"]
              /\ UNCHANGED << q, qref, cbSet, stopEv, cbAlive, srvSet, srv, thr, 
                              leaked, inH, cbs, ops, op, env, carg, exc, stack, 
-                             immediate, item, ci, n >>
+                             immediate, item, ci, n, rf >>
 
 H2(self) == /\ pc[self] = "H2"
             /\ IF ~qref
@@ -801,21 +809,21 @@ H2(self) == /\ pc[self] = "H2"
                        /\ obs' = obs
             /\ UNCHANGED << qref, cbSet, stopEv, cbAlive, srvSet, srv, thr, 
                             leaked, inH, cbs, ops, op, env, carg, exc, stack, 
-                            immediate, item, ci, n >>
+                            immediate, item, ci, n, rf >>
 
 H2f(self) == /\ pc[self] = "H2f"
              /\ obs' = Run(obs, (<<ReqEv("resp", self, n[self], "err")>>))
              /\ pc' = [pc EXCEPT ![self] = "H3"]
              /\ UNCHANGED << q, qref, cbSet, stopEv, cbAlive, srvSet, srv, thr, 
                              leaked, inH, cbs, ops, op, env, carg, exc, stack, 
-                             immediate, item, ci, n >>
+                             immediate, item, ci, n, rf >>
 
 H2r(self) == /\ pc[self] = "H2r"
              /\ obs' = Run(obs, (<<ReqEv("resp", self, n[self], "ok")>>))
              /\ pc' = [pc EXCEPT ![self] = "H3"]
              /\ UNCHANGED << q, qref, cbSet, stopEv, cbAlive, srvSet, srv, thr, 
                              leaked, inH, cbs, ops, op, env, carg, exc, stack, 
-                             immediate, item, ci, n >>
+                             immediate, item, ci, n, rf >>
 
 H3(self) == /\ pc[self] = "H3"
             /\ inH' = inH \ {self}
@@ -823,7 +831,7 @@ H3(self) == /\ pc[self] = "H3"
             /\ pc' = [pc EXCEPT ![self] = "S0"]
             /\ UNCHANGED << q, qref, cbSet, stopEv, cbAlive, srvSet, srv, thr, 
                             leaked, cbs, obs, ops, op, env, carg, exc, stack, 
-                            immediate, item, ci >>
+                            immediate, item, ci, rf >>
 
 snd(self) == S0(self) \/ H1(self) \/ H1r(self) \/ H2(self) \/ H2f(self)
                 \/ H2r(self) \/ H3(self)
